@@ -21,6 +21,7 @@ import (
 	"fmt"
 	"sync"
 
+	gettylib "github.com/apache/dubbo-getty"
 	"github.com/pkg/errors"
 
 	"seata.apache.org/seata-go/pkg/protocol/message"
@@ -42,6 +43,37 @@ func GetRMRemotingInstance() *RMRemoting {
 		})
 	}
 	return rmRemoting
+}
+
+func init() {
+	// a new session (first connect or reconnect) has to learn every resource this client holds
+	getty.RegisterSessionOpenHook(func(session gettylib.Session) {
+		GetRMRemotingInstance().registerResourcesOn(session)
+	})
+}
+
+func (r *RMRemoting) registerResourcesOn(session gettylib.Session) {
+	GetRmCacheInstance().resourceManagerMap.Range(func(_, m interface{}) bool {
+		m.(ResourceManager).GetCachedResources().Range(func(_, v interface{}) bool {
+			resource, ok := v.(Resource)
+			if !ok {
+				return true
+			}
+			req := message.RegisterRMRequest{
+				AbstractIdentifyRequest: message.AbstractIdentifyRequest{
+					Version:                 "1.5.2",
+					ApplicationId:           rmConfig.ApplicationID,
+					TransactionServiceGroup: rmConfig.TxServiceGroup,
+				},
+				ResourceIds: resource.GetResourceId(),
+			}
+			if _, err := getty.GetGettyRemotingClient().SendSyncRequestOnSession(session, req); err != nil {
+				log.Errorf("re-register resource %s on new session error: %v", resource.GetResourceId(), err)
+			}
+			return true
+		})
+		return true
+	})
 }
 
 type RMRemoting struct{}
